@@ -273,6 +273,55 @@ def run_settings_alias(chk, F):
     chk.expect_count('E10-settings', 'uses of the source settings pointer in copy constructors', n, 4)
 
 
+def run_nullness(chk, F):
+    """E12: no operation dereferences, member-accesses or destroys a pointer that the class itself treats as nullable on
+    a path on which it can be null (gsa/nullness.py). Covers every class of the two families except the general
+    matrices and column classes, which C09 checks with the same engine."""
+    from gsa import nullness
+    from rules import c09
+    by = {}
+    seen = set()
+    for f in F.functions:
+        if f.get('inst') not in (0, 2) or f.get('body') is None or f.get('unit') == 'mx_inst':
+            continue
+        c = f.get('cls') or f.get('friendof')
+        if not c or any(g in f['file'] for g in c09.GENERAL_FILES):
+            continue
+        key = (f['file'], f['line'], f['name'])
+        if key in seen:
+            continue
+        seen.add(key)
+        by.setdefault(c, []).append(f)
+    n_cls = n_sinks = 0
+    # a nullable member function is nullable for its callers in other classes too (iterators calling into the tree)
+    global_nullable = set()
+    for c, fns in by.items():
+        global_nullable |= nullness.nullable_calls(fns)
+    for c, fns in sorted(by.items()):
+        res, stats = nullness.analyse_class(fns, extra_ncalls=global_nullable)
+        if not stats['sinks'] and not any(fs for _f, fs, _s in res):
+            continue
+        n_cls += 1
+        n_sinks += stats['sinks']
+        cname = c.split('::')[-1]
+        for f, fs, sinks in res:
+            if sinks == 0 and not fs:
+                continue
+            where = '%s:%d' % (rel(f['file']), f['line'])
+            if not fs:
+                chk.ob('E12-nullness', '%s::%s: %d uses of nullable pointers are dominated by a non-null fact'
+                       % (cname, f['name'], sinks), where, True, '', key='E12|%s::%s' % (cname, f['name']))
+            for x in fs:
+                chk.ob('E12-nullness', '%s::%s: %s of `%s`' % (cname, f['name'], x.kind, x.key),
+                       '%s:%s' % (rel(f['file']), x.line), False,
+                       '`%s` %s on this path and is used by %s' % (x.key, 'is null' if x.state == 'N' else
+                                                                  'may be null', x.text),
+                       key='E12|%s::%s|%s|%s' % (cname, f['name'], x.key, x.kind.split(' ')[0]))
+    chk.count('E12 classes with nullable pointers', n_cls)
+    chk.count('E12 uses of nullable pointers checked', n_sinks)
+    chk.expect_count('E12-nullness', 'uses of nullable pointers', n_sinks, 10)
+
+
 def run(tier, replay=None):
     chk = Check('C15', tier,
                 'Static decision of structural clauses of C15 on the template patterns of Simplex_tree and '
@@ -289,6 +338,7 @@ def run(tier, replay=None):
     run_e1c(chk, F)
     run_bounded_reads(chk, F)
     run_static_state(chk, F)
+    run_nullness(chk, F)
     run_settings_alias(chk, F)
     # deserialisation rebuilds the dimension bound of the tree it creates (shared rule C01/R3b)
     from rules import c01, c03
